@@ -33,6 +33,21 @@ CHECKS = {
  "C01": dict(engine="E1", technique="explicit-state search over the real flow per exchange: complete graph of (full internal-state fingerprint, consumed, arrived, body cursor) under all buffer sizes and 1-byte arrivals, reference models + single-outcome oracle",
              text="For every exchange of the request x server menu the complete reachable graph is explored with the real Flow object inside each state: head writes with every buffer size, body writes and direct-write reports over a size menu, 1-byte arrivals (so every window stream[consumed..arrived] a caller can present is presented), try_read_100 / give-up / try_response / read at every window, proceed whenever ready. Every transition is checked against reference models (independent head parser, strict chunk decoder, framing and close-condition models, message boundaries known by construction), every state checks query purity and readiness-vs-proceed, every final state must carry the same observation, consume exactly the message lengths and give the reference reuse verdict, and every state must be able to reach the end (no livelock). Final and intermediate traces are replayed clone-free on fresh objects.",
              note="Menus are finite (listed in the evidence rule); payload bytes are pattern bytes; windows inside a 3xx head after a complete Location line are excluded (owned by C05 / KF1); multi-response sessions are represented by trailing bytes of a next response that must stay unconsumed.", ref="4/C01"),
+ "C07": dict(engine="E1", technique="explicit-state search of the real chunked body reader per coding: complete graph over (dechunker state, consumed, arrived) with 1-byte arrivals and small output buffers; payload and boundaries known by construction",
+             text="Every coding of the small-scope grammar (sizes, CR/LF-laden payloads, leading zeros, extensions, last-chunk spellings, trailers; hex-digit boundary sizes 15..4096 in three letter cases) is decoded by the real Flow::<RecvBody> under ALL arrival cut sets (1-byte arrivals make every window reachable) x output sizes {0,1,2,3,4,large} x boundary stopping off/on; each read is checked for exact payload bytes, no over-read into the following message, ended exactly at the final CRLF, reads after the end, and one-chunk-per-read under boundary stopping; every state must reach the end (no hang).",
+             note="Size lines stay within the decoder's 20-byte sanity limit; quick uses all 1-chunk and a pairwise-reduced 2-chunk family, thorough all <=2-chunk codings and a reduced 3-chunk family; large chunks use a coarse arrival alphabet (listed in the rule). The 'randomly beyond that scope' part of the quantifier is replaced by the deterministic boundary set.", ref="4/C07"),
+ "C08": dict(engine="E1+E2", technique="complete graphs of the real length-/close-delimited readers for N<=8 plus exhaustive boundary-step sweep for every N in 0..=70000",
+             text="For N in 0..=8 (both response versions, 3 foreign bytes after the body) and close-delimited streams of 0..=6 bytes the complete graph over (remaining, consumed, arrived) with all output sizes is explored; for every N in 1..=70000 and four large values single and two-step reads with window/buffer lengths {0,1,N-1,N,N+1,N+3} are executed on a fresh flow, including the completed state. Each read must move exactly min(window, buffer, remaining) unchanged bytes, never beyond N; completion exactly at N; close-delimited flows are proceedable in every state and end must-close.",
+             note="Interior window/buffer lengths between the boundaries are exercised only for N<=8.", ref="4/C08"),
+ "C09": dict(engine="E1", technique="explicit-state search of the real flow in lock-step with the documented state graph over a request x server scenario menu, all permitted calls in every state",
+             text="~7800 scenarios (all 216 request configurations, the rejected ones checked to stay in SendRequest; all server behaviours) are explored with every permitted call enabled in every state: proceed() on a clone whether or not ready (readiness must equal success), writes after completion, reads after the end, give-up at any point, as_new_flow with both policies twice followed by a complete second exchange. Every edge taken is compared with the documented graph, every state must be able to reach Cleanup, no call may panic.",
+             note="I/O granularity is coarse here (structural cut points; 1-byte arrivals in the thorough tier); fine segmentation is C01's.", ref="4/C09"),
+ "C10": dict(engine="E1", technique="exhaustive product of close-relevant configuration (7744 cells), each explored through the real flow to Cleanup, verdict vs five-condition reference",
+             text="Every combination of request version, request Connection header(s), request kind, Expect outcome, response version, status, framing and response Connection header(s) is driven through the real flow along all mixtures of arrivals in the menu; must_close_connection / close_reason are compared with the disjunction of the five conditions (the reason must name a condition that holds) in the Redirect state and in Cleanup.",
+             note="Connection values as listed in the quantifier (lower-case close / keep-alive / absent / two fields).", ref="4/C10"),
+ "C11": dict(engine="E1", technique="explicit-state search over (flow fingerprint, consumed, arrived) with look and give-up possible at every prefix of every interim/refusal head",
+             text="For every Expect request x server script the complete graph with 1-byte arrivals is explored: try_read_100 at every window while can_keep_await_100, give-up at every prefix, then both later paths to Cleanup. Checks: nothing decided/consumed inside or right after the status line; bare 100 consumed exactly; other responses consume nothing, lead to RecvResponse returning that very response, never to a body write, and end must-close; late 100 skipped exactly once; body bytes all-or-nothing; every branch reaches Cleanup.",
+             note="Windows strictly between status line and head end of a refusal with fields may be undecided or decided (the statement leaves it open). 3xx refusal windows after a complete Location line are excluded (C05/KF1).", ref="4/C11"),
 }
 ALL = ["C%02d" % i for i in range(1, 21)]
 NA_REASON = "check not built yet (work in progress; not a claim that model checking cannot apply)"
